@@ -16,20 +16,23 @@ ID = 'C18'
 LEAN_MODULES = ['Cellml.Props.C18']
 N = {'quick': 150, 'thorough': 3000}
 RULE = ('a case is a history: a base model (40 % a generated CellML document with unit-changing connections, loaded with '
-        'load_model; 30 % a model built through the API holding GHK-like equations from the C12 generator; 15 % a model '
-        'built through the API from type-directed expressions with piecewise / functions / powers / floor over a random '
-        'unit family; 15 % a bundled model: beeler_reuter_model_1977, aslanidi_model_2009) followed by 1-6 operations '
-        'drawn from convert_variable (INPUT / OUTPUT on a state, the free variable, a constant, a computed variable; '
-        'target compatible at another scale, identical, or of another dimension), remove_fixable_singularities '
-        '(random voltage variable and exclusions), add_equation of equations built with create_quantity and existing '
-        'variables (GHK form, affine, mixed scales, piecewise, functions, ODE, random units), remove_equation, the unit-fix '
-        'write-back (evaluate_units_and_fix; remove; add) on one equation or as a pass over all, remove_variable with '
-        're-adding and re-pointing of references; in half of the cases a second model (sharing the registry or not) '
-        'lives in the same process and receives operations too; after the base and after EVERY operation every atom of '
-        'every equation of every model is classified and every equation side goes through evaluate_units and '
-        'convert_expression_recursively; 1 history in 6 ends with a control step that plants string / foreign / missing '
-        'units on purpose and must be DETECTED; non-trivial = at least one operation created a quantity; distinct = '
-        'distinct case JSON')
+        'load_model; 30 % a model built through the API holding 2-4 GHK-like equations from the C12 generator; 15 % a '
+        'model built through the API from type-directed expressions (piecewise, functions, powers, floor) over a random '
+        'unit family; 15 % a bundled model: beeler_reuter_model_1977, aslanidi_model_2009) followed by 1-6 operations: '
+        'convert_variable (INPUT / OUTPUT on a state, the free variable, a constant, a computed or undefined variable; '
+        'target compatible at another scale, a freshly defined scaled unit, identical, or of another dimension), '
+        'remove_fixable_singularities (random voltage variable and exclusions), add_equation of equations built with '
+        'create_quantity and existing variables (GHK form, reciprocal of one, affine, sum of two scales, piecewise, '
+        'function, ODE, random units), remove_equation, the unit-fix write-back (evaluate_units_and_fix; '
+        'remove_equation; add_equation) on one equation or as a pass over all, remove_variable with re-adding and '
+        're-pointing of references; in half of the cases a second model (sharing the registry or not) lives in the same '
+        'process and receives 30 % of the operations; after the base and after EVERY operation every Quantity / '
+        'Variable atom of every equation of every model is classified (unit of the store / string / foreign / missing), '
+        'plain Floats are counted, and every equation goes through evaluate_units (both sides) and '
+        'convert_expression_recursively; an equation that converted before an operation must not report a UnitError '
+        'after it; create_quantity / add_variable are probed with every kind of unit argument; 1 history in 6 ends with '
+        'a control step that plants a string / foreign / missing unit on purpose and must be DETECTED; non-trivial = at '
+        'least one operation created a quantity; distinct = distinct case JSON')
 TRUSTED = ['Lean 4.33 kernel', 'axioms: propext, Classical.choice, Quot.sound',
            'correspondence harness harness/props/c18.py (object identity tracking by id(), atom scan by '
            'sympy.preorder_traversal)',
@@ -588,13 +591,13 @@ def run_step(ctxs, step):
             if not m.equations:
                 rec['out'] = 'skip:no-equation'
                 return rec
-            m.remove_equation(m.equations[step[2] % len(m.equations)])
+            m.remove_equation(sorted(m.equations, key=lambda e: str(e.lhs))[step[2] % len(m.equations)])
         elif op in ('fix', 'fixAll'):
             eqs = list(m.equations)
             if not eqs:
                 rec['out'] = 'skip:no-equation'
                 return rec
-            todo = eqs if op == 'fixAll' else [eqs[step[2] % len(eqs)]]
+            todo = eqs if op == 'fixAll' else [sorted(eqs, key=lambda e: str(e.lhs))[step[2] % len(eqs)]]
             rec.update({'rewritten': 0, 'uniterror': 0})
             for eq in todo:
                 try:
@@ -851,6 +854,11 @@ def oracle(case, obs):
                     explained = magnitude_trigger(u[3], exc)
                     fails.append({'key': ('non-UnitError:%s:%s' if explained else 'non-UnitError-unexplained:%s:%s')
                                   % (exc, opn), 'detail': 'model %d: %s of %s raised %s' % (i, which, u[4], exc)})
+            if k and rec['who'] == i and rec['op'] in ('conv', 'sing', 'fix', 'fixAll', 'rmEq') and \
+                    s['floats'] > obs['snaps'][k - 1][i]['floats']:
+                fails.append({'key': 'missing-unit:%s:bare-float' % opn,
+                              'detail': 'model %d: %d plain sympy Floats (numbers without any unit) in the equations before '
+                                        '%s, %d after it' % (i, obs['snaps'][k - 1][i]['floats'], opn, s['floats'])})
             if k and rec['who'] == i and rec['op'] != 'raw':
                 before = obs['snaps'][k - 1][i]
                 was = {tuple(l): before['units'].get(str(j), ['ok', 'ok', 'ok'])[2] for j, l in enumerate(before['lhs'])}
